@@ -15,3 +15,5 @@ fn t_c07_leaf_string3() {
     check_string(&[ValueKind::String as u8, 252, 3, c[0], c[1]], 3, 3);
 }
 
+#[cfg(verif_replay)]
+include!("/verif/.cache/replay/verif__leaf_total_t.rs");
